@@ -229,8 +229,8 @@ func TestC08(t *testing.T) {
 
 type c08SchedResult struct {
 	Execs, Complete, States, Transitions, Bound, Outcomes, Diverged int
-	CapHit                                                           bool
-	Violations                                                       []hViolation
+	CapHit                                                          bool
+	Violations                                                      []hViolation
 }
 
 func TestC08Child(t *testing.T) {
